@@ -29,6 +29,7 @@ fn both(args: &[String]) {
     let list = arg(args, "--list").expect("--list");
     let out = arg(args, "--out").expect("--out");
     let detail = arg_or(args, "--detail", "off") == "on";
+    let reports = arg_or(args, "--reports", "off") == "on";
     let mut w = writer(&out);
     let (mut n, mut cases, mut dropped, mut fails) = (0u64, 0u64, 0u64, 0u64);
     let uni = vh::c01::uni_table(&vh::gen::ALPHA);
@@ -64,6 +65,16 @@ fn both(args: &[String]) {
                 fails += 1;
             }
             cases += 1;
+            if reports {
+                // C08 format: one case per back-end, failing parses only
+                if v["k"] == "fail" {
+                    cs.push(json!({"start": start, "inp": c["inp"], "backend": "vm", "got": v}));
+                }
+                if g["k"] == "fail" {
+                    cs.push(json!({"start": start, "inp": c["inp"], "backend": "generated", "got": g}));
+                }
+                continue;
+            }
             let mut o = json!({"start": start, "inp": c["inp"], "vm": strip(v), "gen": strip(g)});
             if let Some(e) = c.get("exp") {
                 o["exp"] = e.clone();
